@@ -451,9 +451,9 @@ func init() {
 		},
 		NumCases: func(tier, build string) int {
 			if build == "race" {
-				return 600
+				return 3000
 			}
-			return vf.Tiered(tier, 160, 4000)
+			return vf.Tiered(tier, 160, 60000)
 		},
 		Shards: func(tier, build string) int { return 16 },
 		Floor:  func(tier string) int { return vf.Tiered(tier, 50, 500) },
